@@ -180,10 +180,17 @@ async def run_history(w: World, steps, sessions):
     return recs
 
 
-def execute(steps, sessions=("A", "B"), seed=0, prefill=True):
+def execute(steps, sessions=("A", "B"), seed=0, prefill=True, sched_out=None):
     w = World(seed=seed)
 
     async def main(loop):
+        rec = None
+        if sched_out is not None:
+            # step-level recording of the admission protocol (harness/schedsteps.py)
+            from . import schedsteps
+            schedsteps.install()
+            rec = schedsteps.Recorder()
+            schedsteps.ACTIVE[0] = rec
         await w.start()
         try:
             if prefill:
@@ -194,6 +201,9 @@ def execute(steps, sessions=("A", "B"), seed=0, prefill=True):
                 await w.cmd("Z", "LOGOUT")
             return await run_history(w, steps, sessions)
         finally:
+            if rec is not None:
+                schedsteps.ACTIVE[0] = None
+                sched_out.append(rec.dump())
             try:
                 await w.stop()
             except Exception:
